@@ -3,8 +3,9 @@
 
    Clause of the property text                          -> theorem
    -----------------------------------------------------------------------------------------------
-   SEQUENTIAL (every history of create/null/copy/fromraw/assign/reset/swap/write/detach/destroy on
-   the handle variables of String | Variant | RefCount::Ptr | Xml::Variant):
+   SEQUENTIAL (every history of create/null/copy/fromraw/assign/assignraw/assignval/reset/swap/write/
+   detach/destroy on the handle variables of String | Variant | RefCount::Ptr | Xml::Variant; the value
+   of a payload is its contents, RcModel.push):
    counter = number of live handles referring to b      -> seq_count_is_number_of_handles
    released exactly once                                -> seq_released_exactly_once, seq_release_is_final
    ... after the last handle has gone (and then at once)-> seq_released_iff_last_handle_gone
@@ -14,9 +15,10 @@
                                                            monitor_inplace_write_means_unshared;
                                                            seen from outside: seq_other_handles_keep_their_value,
                                                            seq_step_refines_value_semantics (all four types),
-                                                           seq_history_refines_value_semantics (String, Variant,
-                                                           Xml::Variant: the Model computes what the Spec, in which
-                                                           every variable owns its value, computes)
+                                                           seq_history_refines_value_semantics (all four types,
+                                                           whole histories: the Model computes what the Spec, in
+                                                           which every variable owns its value, computes; for
+                                                           RefCount::Ptr the identities of the objects agree too)
    what the fault monitors mean                         -> monitor_access_means_not_released,
                                                            monitor_inplace_write_means_unshared,
                                                            monitor_release_means_first_release
@@ -38,6 +40,9 @@
    every schedule that lets each thread make its accesses ends with every program completed and
    then: released <-> no handle left (exactly once, after the last handle, no leak)
                                                         -> conc_fair_schedules_release_after_last_handle
+   an access trace recorded from the implementation that RcConc.replay accepts is a run of the
+   machine (so everything above holds of the state it reaches)
+                                                        -> conc_accepted_trace_is_a_run, conc_accepted_event_means
    Not covered by a theorem (validated by correspondence only): the values read through the
    handles in the CONCURRENT machine (compared with the value-semantics Spec on every case). *)
 From Coq Require Import ZArith List Bool Arith.
@@ -112,9 +117,10 @@ Theorem seq_step_refines_value_semantics : forall f ops o,
 Proof. exact hist_step_refines. Qed.
 Print Assumptions seq_step_refines_value_semantics.
 
-Theorem seq_history_refines_value_semantics : forall f ops, is_ptr f = false ->
-  abs f (run f ops) = svars (spec_run f ops).
-Proof. exact run_refines. Qed.
+Theorem seq_history_refines_value_semantics : forall f ops,
+  abs f (run f ops) = svars (spec_run f ops) /\
+  (is_ptr f = true -> screated (spec_run f ops) = length (heap (run f ops))).
+Proof. exact run_refines_all. Qed.
 Print Assumptions seq_history_refines_value_semantics.
 
 Theorem seq_other_handles_keep_their_value : forall f ops o w, ~ In w (op_vars o) ->
@@ -129,12 +135,27 @@ Example ex_hist_blocks :
   /\ map (fun k => (rc k, freed k, dtors k)) (heap (run FStr (firstn 6 ex_hist))) = [(1, false, 0%nat); (2, false, 0%nat)]
   /\ flt (run FStr ex_hist) = None.
 Proof. vm_compute. repeat split. Qed.
-Example ex_count : count_refs 1 (vars (run FStr (firstn 6 ex_hist))) = 2%nat /\ len (getb (run FStr (firstn 6 ex_hist)) 1) = 5.
+(* contents: 83 = "123" in base 8, 5349 = "12345" *)
+Example ex_count : count_refs 1 (vars (run FStr (firstn 6 ex_hist))) = 2%nat /\ val (getb (run FStr (firstn 6 ex_hist)) 1) = 5349
+  /\ slen 5349 = 5 /\ cap (getb (run FStr (firstn 6 ex_hist)) 1) = 7.
+Proof. vm_compute. repeat split. Qed.
+(* values: variable 0 keeps "123" while its copy, variable 1, is written twice (clone, then in place) *)
+Example ex_values : abs FStr (run FStr (firstn 5 ex_hist)) = [SVal 0 83; SVal 0 5349; SVal 0 83; SDead; SDead; SDead]
+  /\ svars (spec_run FStr (firstn 5 ex_hist)) = [SVal 0 83; SVal 0 5349; SVal 0 83; SDead; SDead; SDead].
 Proof. vm_compute. split; reflexivity. Qed.
-(* values: variable 0 keeps 3 while its copy, variable 1, is written twice (clone, then in place) *)
-Example ex_values : abs FStr (run FStr (firstn 5 ex_hist)) = [SVal 0 3; SVal 0 5; SVal 0 3; SDead; SDead; SDead]
-  /\ svars (spec_run FStr (firstn 5 ex_hist)) = [SVal 0 3; SVal 0 5; SVal 0 3; SDead; SDead; SDead].
-Proof. vm_compute. split; reflexivity. Qed.
+(* Variant: a value assignment through a shared handle clones, the next one is in place; the other handle keeps "12" and is then written *)
+Example ex_values_var :
+  map (fun k => (rc k, freed k, dtors k, val k)) (heap (run FVar (firstn 5 ex_hist_var))) = [(1, false, 0%nat, 87); (1, false, 0%nat, 84)]
+  /\ abs FVar (run FVar (firstn 5 ex_hist_var)) = [SVal 0 87; SVal 0 84; SDead; SDead; SDead; SDead]
+  /\ map (fun k => (freed k, dtors k)) (heap (run FVar ex_hist_var)) = [(true, 1%nat); (true, 1%nat)].
+Proof. vm_compute. repeat split. Qed.
+(* RefCount::Ptr, whole history, with identities: p0 = &*p0 keeps object 0 alive; p1 = &*p2 shares object 1 *)
+Example ex_values_ptr :
+  abs FPtr (run FPtr (firstn 6 ex_hist_ptr)) = [SVal 1 6; SVal 1 6; SVal 0 5; SDead; SDead; SDead]
+  /\ svars (spec_run FPtr (firstn 6 ex_hist_ptr)) = [SVal 1 6; SVal 1 6; SVal 0 5; SDead; SDead; SDead]
+  /\ map (fun k => (rc k, freed k)) (heap (run FPtr (firstn 6 ex_hist_ptr))) = [(1, false); (2, false)]
+  /\ map (fun k => (freed k, dtors k)) (heap (run FPtr ex_hist_ptr)) = [(true, 1%nat); (true, 1%nat)].
+Proof. vm_compute. repeat split. Qed.
 (* the three monitors do fire on states that deserve it *)
 Example ex_monitor_fires :
   flt (write_inplace (run FVar [OCreate 0 2; OCopy 1 0]) 0 9) = Some (FSharedWrite 0)
@@ -148,7 +169,7 @@ Example ex_swap_as_written_dangles :
 Proof. vm_compute. split; reflexivity. Qed.
 
 (* ================================ concurrent clause ================================================ *)
-Theorem conc_invariant_init : forall variant val nv cfg, CInv (cinit variant val nv cfg).
+Theorem conc_invariant_init : forall f val nv cfg, CInv (cinit f val nv cfg).
 Proof. exact cinit_inv. Qed.
 Print Assumptions conc_invariant_init.
 
@@ -156,8 +177,8 @@ Theorem conc_invariant_step : forall st t, CInv st -> CInv (cstep st t).
 Proof. exact cstep_inv. Qed.
 Print Assumptions conc_invariant_step.
 
-Theorem conc_every_interleaving_safe : forall variant val nv cfg sched,
-  let st := run_sched (cinit variant val nv cfg) sched in
+Theorem conc_every_interleaving_safe : forall f val nv cfg sched,
+  let st := run_sched (cinit f val nv cfg) sched in
   cflt st = None /\
   (forall b, (b < length (cheap st))%nat ->
      cfrees (getcb (cheap st) b) = if cfreed (getcb (cheap st) b) then 1%nat else 0%nat) /\
@@ -169,20 +190,20 @@ Theorem conc_every_interleaving_safe : forall variant val nv cfg sched,
 Proof. exact all_interleavings_safe. Qed.
 Print Assumptions conc_every_interleaving_safe.
 
-Theorem conc_every_next_access_legal : forall variant val nv cfg sched t th,
-  let st := run_sched (cinit variant val nv cfg) sched in
+Theorem conc_every_next_access_legal : forall f val nv cfg sched t th,
+  let st := run_sched (cinit f val nv cfg) sched in
   nth_error (threads st) t = Some th -> prog th <> [] ->
-  let a := fst (plan (cvariant st) th) in
-  (forall b, a = AWrite b -> cfreed (getcb (cheap st) b) = false /\ handles_total st b = 1) /\
+  let a := fst (plan (cflav st) (cheap st) th) in
+  (forall b c, a = AWrite b c -> cfreed (getcb (cheap st) b) = false /\ handles_total st b = 1) /\
   (forall b, a = AFree b -> cfreed (getcb (cheap st) b) = false /\ handles_total st b = 0) /\
-  (forall b, a = ATouch b \/ a = AReadRef b \/ a = AInc b \/ a = ADec b \/ a = AAlloc b ->
+  (forall b c k, a = ATouch b \/ a = AReadRef b \/ a = AInc b \/ a = ADec b \/ a = AAlloc b c k ->
              cfreed (getcb (cheap st) b) = false).
 Proof. exact all_interleavings_next_access. Qed.
 Print Assumptions conc_every_next_access_legal.
 
-Theorem conc_release_is_final : forall variant val nv cfg s1 s2 b,
-  let st1 := run_sched (cinit variant val nv cfg) s1 in
-  let st2 := run_sched (cinit variant val nv cfg) (s1 ++ s2) in
+Theorem conc_release_is_final : forall f val nv cfg s1 s2 b,
+  let st1 := run_sched (cinit f val nv cfg) s1 in
+  let st2 := run_sched (cinit f val nv cfg) (s1 ++ s2) in
   (b < length (cheap st1))%nat ->
   (b < length (cheap st2))%nat /\
   (cfrees (getcb (cheap st1) b) <= cfrees (getcb (cheap st2) b) <= 1)%nat /\
@@ -190,9 +211,9 @@ Theorem conc_release_is_final : forall variant val nv cfg s1 s2 b,
 Proof. exact all_interleavings_release_final. Qed.
 Print Assumptions conc_release_is_final.
 
-Theorem conc_fair_schedules_release_after_last_handle : forall variant val nv cfg sched,
+Theorem conc_fair_schedules_release_after_last_handle : forall f val nv cfg sched,
   (forall t, (5 * length (snd (nth t cfg (0%nat, []))) <= count_occ Nat.eq_dec sched t)%nat) ->
-  let st := run_sched (cinit variant val nv cfg) sched in
+  let st := run_sched (cinit f val nv cfg) sched in
   finished st /\
   forall b, (b < length (cheap st))%nat ->
     let nvars := sumz (fun th => vcount b (tvars th)) (threads st) in
@@ -200,6 +221,19 @@ Theorem conc_fair_schedules_release_after_last_handle : forall variant val nv cf
     (cfreed (getcb (cheap st) b) = false -> crc (getcb (cheap st) b) = nvars /\ 1 <= nvars).
 Proof. exact fair_schedules_complete. Qed.
 Print Assumptions conc_fair_schedules_release_after_last_handle.
+
+Theorem conc_accepted_trace_is_a_run : forall f val nv cfg es ts st1 l1 rest st2 l2,
+  replay (cinit f val nv cfg) es = (st1, l1, rest) -> finish st1 ts = (st2, l2) ->
+  st1 = run_sched (cinit f val nv cfg) l1 /\ st2 = run_sched (cinit f val nv cfg) (l1 ++ l2) /\
+  safe_state st1 /\ safe_state st2.
+Proof. exact accepted_trace_is_run. Qed.
+Print Assumptions conc_accepted_trace_is_a_run.
+
+Theorem conc_accepted_event_means : forall st e st' l, accept st e = Some (st', l) ->
+  cflt st' = None /\ exists s1, st' = cstep s1 (etid e) /\
+  (ekind_of e = ECopy \/ exists a, next_action s1 (etid e) = Some a /\ match_event e a st' = true).
+Proof. exact accept_means. Qed.
+Print Assumptions conc_accepted_event_means.
 
 (* ---- non-vacuity ---------------------------------------------------------------------------------- *)
 (* three threads, four handles to the common payload; writes, copies, assignment, swap, drops *)
@@ -210,21 +244,33 @@ Proof. vm_compute. split; reflexivity. Qed.
 (* the two schedules release the common payload once each, but clone different numbers of times *)
 (* the two schedules release every payload once each, but clone different numbers of times *)
 Example ex_conc_runs :
-  let a := run_sched (cinit false 3 3 ex_cfg) ex_rr in
-  let b := run_sched (cinit false 3 3 ex_cfg) ex_seq in
+  let a := run_sched (cinit FStr 3 3 ex_cfg) ex_rr in
+  let b := run_sched (cinit FStr 3 3 ex_cfg) ex_seq in
   cflt a = None /\ finishedb a = true /\ map (fun k => (cfreed k, cfrees k)) (cheap a) = repeat (true, 1%nat) 5
   /\ cflt b = None /\ finishedb b = true /\ map (fun k => (cfreed k, cfrees k)) (cheap b) = repeat (true, 1%nat) 4.
 Proof. vm_compute. repeat split. Qed.
 (* a race: both threads read ref = 2, both clone, the second decrement releases the payload *)
 Example ex_conc_race :
-  let st := run_sched (cinit false 7 1 [(1%nat, [CWrite 0 false]); (1%nat, [CWrite 0 false])]) [0; 1; 0; 1; 0; 1; 0; 1]%nat in
-  map (fun k => (crc k, cfreed k, cfrees k, cval k)) (cheap st) = [(0, false, 0%nat, 7); (1, false, 0%nat, 8); (1, false, 0%nat, 8)]
+  let st := run_sched (cinit FVar 7 1 [(1%nat, [CWrite 0 (WAppend 1)]); (1%nat, [CWrite 0 (WAppend 2)])]) [0; 1; 0; 1; 0; 1; 0; 1]%nat in
+  map (fun k => (crc k, cfreed k, cfrees k, cval k)) (cheap st) = [(0, false, 0%nat, 7); (1, false, 0%nat, 57); (1, false, 0%nat, 58)]
   /\ map reg (threads st) = [1; 0] /\ map pend (threads st) = [Some 0%nat; Some 0%nat]
   /\ map (fun k => (cfreed k, cfrees k)) (cheap (run_sched st [0; 1]%nat)) = [(true, 1%nat); (false, 0%nat); (false, 0%nat)].
 Proof. vm_compute. repeat split. Qed.
 (* the monitors reject what the property forbids *)
 Example ex_conc_monitors :
-  let st := cinit false 7 1 [(1%nat, []); (1%nat, [])] in
-  monitor st (AWrite 0) = Some (CSharedWrite 0) /\ monitor st (AFree 0) = Some (CFreeReferenced 0)
+  let st := cinit FStr 7 1 [(1%nat, []); (1%nat, [])] in
+  monitor st (AWrite 0 0) = Some (CSharedWrite 0) /\ monitor st (AFree 0) = Some (CFreeReferenced 0)
   /\ monitor st (ATouch 1) = Some (CUaf 1).
 Proof. vm_compute. repeat split. Qed.
+(* a recorded trace is accepted and completes; the same events with thread 0's decrement reported before its
+   copy from the old payload, or without the release after the decrement that reached 0, are rejected at
+   that event *)
+Example ex_trace_accepted :
+  let '(st, l, rest) := replay (cinit FStr 3 1 ex_trace_cfg) ex_trace in
+  rest = [] /\ l = [0; 0; 0; 1; 1; 0; 0; 0; 0]%nat /\ finishedb (fst (finish st [0; 1]%nat)) = true
+  /\ map (fun k => (crc k, cfreed k, cval k, ccap k)) (cheap st) = [(0, true, 3, 3); (1, false, 202, 3)].
+Proof. vm_compute. repeat split. Qed.
+Example ex_trace_rejected :
+  snd (replay (cinit FStr 3 1 ex_trace_cfg) ex_trace_bad_order) = [ev 0 ECopy 0; ev 0 EFree 0]
+  /\ snd (replay (cinit FStr 3 1 ex_trace_cfg) ex_trace_no_free) = [ev 0 EReadRef 1; ev 0 EWrite 202].
+Proof. vm_compute. split; reflexivity. Qed.
